@@ -263,7 +263,9 @@ def gen_chain(g, filters=0.0):
     r = g.r
     doc = g.doc(3, False, 0)
     cur, text, spec = [doc], '$', []
+    g.last_marks = []            # where every step starts in the text (C08: the text split at a step boundary)
     for _ in range(r.randint(1, 4)):
+        g.last_marks.append(len(text))
         if filters and r.random() < filters:
             conts = [v for v in cur if v[0] in 'ao' and v[1]]
             kids = chain_children(r.choice(conts)) if conts else []
@@ -1550,10 +1552,78 @@ class C08(Prop):
             'model. Non-trivial: both P and P++Q select >= 1 value')
     trusted = TRUSTED_EVAL
 
+    def from_text(self, ctx, res, g, budget_scale):
+        """C08_concatenation_from_text: paths written as Coq's fchain_path (steps and filters, confirmed by the driver), split at a
+        step boundary into P and Q: `$`PQ on the document against the concatenation of `$`Q on every value `$`P returns"""
+        r = g.r
+        items = []
+        for i in range(ctx.n(250, 2500) * budget_scale):
+            for _try in range(6):
+                doc, text, spec, cur = gen_chain(g, filters=0.25)
+                if len(spec) >= 2 and (cur or r.random() < 0.2):
+                    break
+            if len(spec) < 2:
+                continue
+            k = r.randint(1, len(spec) - 1)
+            cut = g.last_marks[k]
+            items.append((doc, text, spec, text[:cut], '$' + text[cut:], spec[k:]))
+        whole, pre = [], []
+        for i, (doc, text, spec, ptext, qtext, qspec) in enumerate(items):
+            w = Case('cw%d' % i, text.encode('utf-8'), [doc], meta={'family': 'coq-concatenation', 'nsteps': len(spec)})
+            w.keyc = spec
+            whole.append(w)
+            pre.append(Case('cp%d' % i, ptext.encode('utf-8'), [doc]))
+        go_w, mo_w = both_sides(whole)
+        go_p = core.run_go(pre)
+        third, owner = [], []
+        for i, (it, gp) in enumerate(zip(items, go_p)):
+            rp = gp.get('R0', '')
+            if not rp.startswith('ok:['):
+                continue
+            try:
+                vals = [parse_render(v) for v in values_of(rp)]
+            except Exception:
+                continue
+            for j, v in enumerate(vals):
+                c = Case('ct%d_%d' % (i, j), it[4].encode('utf-8'), [v])
+                c.keyc = it[5]
+                third.append(c)
+                owner.append(i)
+        go_t, mo_t = both_sides(third) if third else ([], [])
+        per = collections.defaultdict(list)
+        for i, gt, mt in zip(owner, go_t, mo_t):
+            if mt.get('P') == 'ok' and mt.get('KP') != '1':
+                res.violation('broken-correspondence', 'harness:fchain_path', 'the continuation sent is not Coq fchain_path of its steps', whole[i])
+            per[i].append(gt.get('R0', 'P:' + gt.get('P', '')))
+        for i, (c, gw, mw) in enumerate(zip(whole, go_w, mo_w)):
+            res.evaluations += 1
+            hp = harness_problem(gw) or harness_problem(mw)
+            if hp:
+                res.violation('broken-correspondence', 'harness:' + hp[:60], hp, c)
+                continue
+            if mw.get('KP') != '1':
+                res.violation('broken-correspondence', 'harness:fchain_path', 'the path sent is not Coq fchain_path of its steps', c)
+                continue
+            cat = []
+            for rq in per.get(i, []):
+                if rq.startswith('ok:['):
+                    cat += values_of(rq)
+            rw = gw.get('R0', '')
+            got = values_of(rw) if rw.startswith('ok:[') else []
+            if got != cat or (not cat and rw.startswith('ok:')) or gw.get('R0') != mw.get('R0'):
+                res.disagreements_checked += 1
+                res.violation('concrete', sig_of(c, 'concatenation-from-text'),
+                              '%r = %r then %r: the values must be the concatenation of the continuation on every value of the prefix' % (c.path, items[i][3], items[i][4]), c,
+                              expected=cat, observed={'impl': rw, 'model': mw.get('R0')})
+            if cat and len(per.get(i, [])) >= 1:
+                res.nontrivial.add((c.path, core.doc_render(c.docs[0])))
+            res.dist['text:' + cls_of(rw or 'P')] += 1
+
     def run(self, ctx, res, budget_scale=1, seed_offset=0):
         g = gens.G(ctx.seed * 19 + 8 + seed_offset)
         g.allow_root = False
         g.allow_agg = False
+        self.from_text(ctx, res, gens.G(ctx.seed * 37 + 88 + seed_offset), budget_scale)
         r = g.r
         n = ctx.n(4000, 30000) * budget_scale
         items = []
